@@ -19,6 +19,11 @@ pub struct C02;
 /// scheduling policy, so both executions of a program see the same child behaviour). `stdin`: with a
 /// simulated standard input of known lines delivered in 7-byte pieces.
 pub fn run_one(src: &str, with_frame: bool, host: bool, stdin: bool) -> Outcome {
+    run_one_caps(src, with_frame, host, stdin, None)
+}
+
+/// `caps`: capacities (persistent arena, frame arena) in bytes instead of the roomy defaults.
+pub fn run_one_caps(src: &str, with_frame: bool, host: bool, stdin: bool, caps: Option<(usize, usize)>) -> Outcome {
     if stdin {
         crate::c17::drain_carry_over();
         let mut data = Vec::new();
@@ -57,6 +62,8 @@ pub fn run_one(src: &str, with_frame: bool, host: bool, stdin: bool) -> Outcome 
             std::process::abort();
         }
         shared.lock().unwrap().take().expect("run returned")
+    } else if let Some((arena_cap, frame_cap)) = caps {
+        pipeline::run_library_caps(src, with_frame, None, arena_cap, frame_cap)
     } else {
         pipeline::run_library(src, with_frame, None)
     };
@@ -64,6 +71,16 @@ pub fn run_one(src: &str, with_frame: bool, host: bool, stdin: bool) -> Outcome 
         fake_libc::take_stdin();
     }
     out
+}
+
+/// A function hands a `len`-element array to its caller `iters` times; the caller keeps only the
+/// last one. The arenas are sized so that the reference configuration (nothing ever freed) finishes
+/// with room to spare.
+pub fn array_return_template(len: u64, iters: u64) -> String {
+    let items = vec!["0"; len as usize].join(", ");
+    format!(
+        "do make_row() start\n    return [{items}]\nend\nmake row get []\nmake k get 0\njasi (k small pass {iters}) start\n    row get make_row()\n    k get k add 1\nend\nshout(row.len())\nshout(k)\n"
+    )
 }
 
 pub fn pool_counts(case: &Value) -> Option<[u32; 20]> {
@@ -146,6 +163,17 @@ impl Engine for C02 {
     }
 
     fn generate(&self, seed: u64, i: u64, _tier: Tier) -> Value {
+        if i % 401 == 200 {
+            // the memory side of "the same ending": see DESIGN.md section 5 (known finding K1)
+            let mut r = Rng::stream(seed, self.tag() ^ 0xa77a, i);
+            // calibrated (both profiles): the reference configuration needs 19 MiB of persistent arena,
+            // with reclamation active the same program needs 34 MiB
+            let (len, iters) = r.pick(&[(1000u64, 400u64), (500, 800)]);
+            return json!({
+                "template": "array-return", "len": len, "iters": iters, "arena_kib": 26624, "frame_kib": 4096,
+                "host": false, "stdin": false, "prog": [], "src": array_return_template(len, iters), "pool": Value::Null, "scribble": Value::Null,
+            });
+        }
         let mut r = Rng::stream(seed, self.tag(), i);
         let knobs = r.fork();
         let mut g = prog::Gen::new(r);
@@ -173,7 +201,13 @@ impl Engine for C02 {
         let (host, stdin) = (case["host"].as_bool().unwrap_or(false), case["stdin"].as_bool().unwrap_or(false));
         res.count("programs_running_commands_on_the_simulated_host", u64::from(host));
         res.count("programs_reading_simulated_stdin", u64::from(stdin));
-        let reference = run_one(&src, false, host, stdin);
+        let template = case["template"].as_str();
+        let caps = case["arena_kib"].as_u64().map(|a| ((a as usize) << 10, (case["frame_kib"].as_u64().unwrap_or(4096) as usize) << 10));
+        if let Some(t) = template {
+            res.count(&format!("template_{t}"), 1);
+            stage(&format!("reference {t}"));
+        }
+        let reference = run_one_caps(&src, false, host, stdin, caps);
         match &reference {
             Outcome::Rejected(m) => {
                 mem::set_pool_slot_counts(None);
@@ -189,10 +223,10 @@ impl Engine for C02 {
             Outcome::Ran { .. } => {}
         }
 
-        stage("reclaiming");
+        stage(&template.map_or_else(|| "reclaiming".to_string(), |t| format!("reclaiming {t}")));
         mem::reset_counters();
         mem::set_scribble(case["scribble"].as_u64().map(|b| b as u8));
-        let sut = run_one(&src, true, host, stdin);
+        let sut = run_one_caps(&src, true, host, stdin, caps);
         mem::set_scribble(None);
         mem::set_pool_slot_counts(None);
         let c = mem::counters();
@@ -220,6 +254,9 @@ impl Engine for C02 {
 
     fn shrink(&self, case: &Value) -> Vec<Value> {
         let mut v = vec![];
+        if !case["template"].is_null() {
+            return v;
+        }
         if !case["pool"].is_null() {
             let mut c = case.clone();
             c["pool"] = Value::Null;
@@ -244,10 +281,17 @@ impl Engine for C02 {
     }
 
     fn classify_crash(&self, how: &str, tail: &str, stage: &str) -> Verdict {
+        if stage == "reclaiming array-return" && is_resource_exhaustion(tail) {
+            // the reference finished in the same persistent arena: reclamation made the program need more
+            return Verdict::Violation {
+                class: "array-copies-exhaust-memory".into(),
+                msg: format!("the reference configuration finished, with reclamation active the interpreter ran out of the same persistent arena ({how}): {}", last_lines(tail, 2)),
+            };
+        }
         if is_resource_exhaustion(tail) {
             return Verdict::Discard("allocation-failure (resource exhaustion)".into());
         }
-        if stage != "reclaiming" {
+        if !stage.starts_with("reclaiming") {
             // the documented reference configuration itself died: not this property's business
             return Verdict::Discard(format!("reference-run-died: {}", crash_kind(tail)));
         }
